@@ -24,6 +24,7 @@ for crate, d in (("whirlpool", extract.program_facts()), ("orca_whirlpools_core"
         if a.get("file"):
             names = [fl["name"] for fl in a.get("fields", [])] if "fields" in a else [v["name"] for v in a.get("variants", [])]
             adts[p] = {"kind": a.get("kind"), "names": names}
-    out[crate] = {"fns": fns, "adts": adts}
+    consts = {p: {"v": c.get("v"), "ty": c.get("ty")} for p, c in F.consts.items() if "v" in c}
+    out[crate] = {"fns": fns, "adts": adts, "consts": consts}
 json.dump(out, open(os.path.join(V, "specs", "reference.json"), "w"), indent=0, sort_keys=True)
 print({k: (len(v["fns"]), len(v["adts"])) for k, v in out.items()})
